@@ -392,6 +392,8 @@ func runC05(c *Ctx, r *Report) {
 	importRules(c, r, "C03", []string{"R-C03.2"}, "R-C05.16")
 	r.Doc("R-C05.17", "every addition to the skip references of the new entry is made under a test against its predecessors (adopted from C04: heads moved from the predecessor list to the references drop out of the view with the next append — the walk follows predecessors only)")
 	importRules(c, r, "C04", []string{"R-C04.12"}, "R-C05.17")
+	r.Doc("R-C05.18", "the appended entry names every head (adopted from C04: a predecessor list cut to a bound leaves heads unnamed; the new entry is the only head afterwards, so their branches vanish from the linearised view)")
+	importRules(c, r, "C04", []string{"R-C04.13"}, "R-C05.18")
 	r.Doc("R-C05.11", "Entry.Copy builds the copy field by field (or replaces every reference-typed field of a struct copy on every path): the copy shares no map or clock with the original")
 	entryCopyFieldwise(c, r, "R-C05.11")
 	r.Doc("R-C05.9", "a copied entry shares no mutable map or clock object with its original: Copy stores a freshly made map and a fresh clock (the link-encrypting codec and the signer write into the copy's additional data)")
